@@ -90,6 +90,20 @@ fn decode_case(em: &mut Emitter, mode: u8, data: &[u8], exp: Option<(bool, Vec<u
             loop { use bcder::decode::Source; let g = src.request(3).unwrap(); if g == 0 { break } let k = g.min(3); sv.extend_from_slice(&src.slice()[..k]); src.advance(k); }
             (v, octs, segs, os.to_bytes().to_vec(), ib, os.len(), os.is_empty(), sv)
         }));
+        // the same string as a member of a SEQUENCE of definite and of indefinite length, followed by a NULL: the
+        // verdict and the content are those of the string standing alone, and the NULL is still there
+        let alone: Option<Vec<u8>> = match &r { Some(Some(x)) => Some(x.3.clone()), _ => None };
+        let mut nested_same = true;
+        if r.is_some() && exp.is_some() && data.len() < 3000 {
+            for indef in [false, true] {
+                if (indef && mode == 2) || (!indef && mode == 1) { continue }
+                let mut inner = data.to_vec(); inner.extend_from_slice(&[0x05, 0x00]);
+                let mut w = vec![0x30u8]; if indef { w.push(0x80); w.extend_from_slice(&inner); w.extend_from_slice(&[0, 0]); } else { w.extend(crate::gen::ref_len_octets(inner.len())); w.extend_from_slice(&inner); }
+                let got = catch(|| Constructed::decode(w.as_slice().into_source(), mode_of(mode), |c| c.take_sequence(|k| { let os = OctetString::take_from(k)?; k.take_null()?; Ok(os.to_bytes().to_vec()) })).ok());
+                if got != Some(alone.clone()) { nested_same = false; }
+            }
+        }
+        if !nested_same { return (Ints::new().n(-6), Oracle::Fail("octet-string-inside-a-sequence-differs-from-the-string-alone".into()), true) }
         match r {
             Some(Some((v, octs, segs, tb, ib, l, e, sv))) => {
                 let orc = match &exp {
